@@ -8,7 +8,7 @@ Open Scope Z_scope.
 Definition rd_waiting (p : rpc) : bool := match p with RState | RArm | RParked => true | _ => false end.
 Definition rd_pre (p : rpc) : bool := match p with RIdle | RCheck | RState | RArm | RDone => true | _ => false end.
 Definition lc_mid_open (l : lpc) : bool :=
-  match l with LCased SOpen | LCased SLocalHalf => true | _ => false end.
+  match l with LCased SOpen | LCased SLocalHalf | LCleaned SOpen | LCleaned SLocalHalf => true | _ => false end.
 
 (* the wake-up part: holds for EVERY schedule, including the two-step timer expiry FireA / FireB *)
 Record WInv (s : st) : Prop := {
